@@ -300,20 +300,25 @@ def specLine (specs : List (List Err)) (sched : List TaskId) : String :=
     " || ".intercalate [a, b, c, d, e]
 
 /-- `cell dg <first|-> <transport error>`: the datagram handle of h3-datagram
-    (`DatagramSender::handle_send_datagram_error`).  Model = the code: it stores the transport's error
-    with `set_conn_error_and_wake`, drops what that call returns (the error that IS in the cell) and
-    answers `ConnectionError::Remote(<its own error>)` — not `convert_to_connection_error`: a timeout
-    comes out as `Remote(Timeout)`, and after an earlier error it names the transport's error instead of
-    the connection's (site D-05g).  Spec = the property: every handle reports the connection's single
-    error, the one the driver reports. -/
+    (`DatagramSender::handle_send_datagram_error`).  Model = the code: the sender is a handle like every
+    other - it hands the transport's error to `handle_quic_stream_error`, i.e. `set_conn_error_and_wake`
+    (the cell model's handle step `sstep`, twice: store, then wake and return) and answers
+    `convert_to_connection_error` of what that call returns, the error that IS in the cell (D-05g,
+    repaired; the arm is read from the tree: `Gen/DgSendArms`, `Lemmas/GenAgreeDgSend`).  Spec = the
+    property: every handle reports the connection's single error, the one the driver reports. -/
 def handleDg (first q : String) : String :=
   match (if first == "-" then some none else (parseErr first).map some), parseErr q with
   | some f, some (.quic qe) =>
+    let s := sstep (sstep { init [[.quic qe]] with cell := f } 0) 0
+    let dg := match s.tasks[0]? with
+      | some t => (t.rets.head?.map (fun r => showC (convert r))).getD "none"
+      | none => "none"
+    let cellM := (s.cell.map showErr).getD "-"
+    let drvM := (s.cell.map (fun c => showC (convert c))).getD "none"
+    -- the specification: the first error wins, every handle and the driver name it alike
     let cell := f.getD (.quic qe)
-    let dg := showQ "R" qe
     let drv := showC (convert cell)
-    let tag := if dg == drv then "" else " #D-05g"
-    s!"cell={showErr cell} dg={dg} drv={drv}{tag} ## cell={showErr cell} dg={drv} drv={drv}"
+    s!"cell={cellM} dg={dg} drv={drvM} ## cell={showErr cell} dg={drv} drv={drv}"
   | _, _ => "bad-op"
 
 def handle : List String → String
